@@ -211,6 +211,11 @@ void note(const char* fmt, ...) {
     char buf[512]; va_list ap; va_start(ap, fmt); vsnprintf(buf, sizeof buf, fmt, ap); va_end(ap);
     tr("[sim] %llu f%d note %s\n", (unsigned long long)g_step, self(), buf);
 }
+static char g_tag[160];
+void set_tag(const char* fmt, ...) {
+    va_list ap; va_start(ap, fmt); vsnprintf(g_tag, sizeof g_tag, fmt, ap); va_end(ap);
+    if (g_out) memcpy(g_out->tag, g_tag, sizeof g_tag);
+}
 void mark_window() { g_window = 1; }
 void set_sample(const std::string& s) { if (g_out) snprintf(g_out->sample, sizeof g_out->sample, "%s", s.c_str()); }
 
@@ -451,6 +456,7 @@ void join(int fid) {
     }
 }
 int self() { return g_cur ? g_cur->id : -1; }
+bool fiber_done(int fid) { return fid >= 0 && fid < g_nfib && g_fibers[fid]->state == F_DONE; }
 bool is_scenario_fiber(int fid) { return fid >= 0 && fid < g_nfib && g_fibers[fid]->scenario; }
 uint64_t step() { return g_step; }
 uint64_t now_ns() { return g_now; }
@@ -489,6 +495,7 @@ int blocked_scenario_fibers() {
 // ------------------------------------------------------------------------------------ scheduler
 static void describe_blocked(char* buf, size_t n) {
     size_t pos = 0;
+    if (g_tag[0]) pos += snprintf(buf, n, "[%s] ", g_tag);
     for (int i = 0; i < g_nfib && pos + 80 < n; ++i) {
         Fiber* f = g_fibers[i];
         static const char* const bk[] = {"-", "futex", "sem", "join", "event", "sleep", "quiesce"};
